@@ -44,7 +44,7 @@ def marker_value(scope, depth):
     return {"data": 7, "locals": 100 + depth, "globals": 200 + depth, "extra": 300, "locals_other_frame": 100, "globals_other_frame": 200}[scope]
 
 
-def run_config(cfg):
+def run_config(cfg, builtin_name="scale"):
     """Returns the observed winner: 'data' | 'builtin' | 'locals' | 'globals' | 'extra' | 'raise' |
     'decoy:<...>' | 'other:<...>'."""
     from formulae import design_matrices
@@ -56,11 +56,11 @@ def run_config(cfg):
     builtin = "builtin" in defined
     if role == "arg":
         # a built-in name that is harmless as a value; otherwise a name nobody else defines
-        name = "scale" if builtin else "probe_nm"
+        name = builtin_name if builtin else "probe_nm"
         if form == "backquoted" and not builtin:
             name_src, name = "`probe nm`", "probe nm"
         elif form == "backquoted":
-            name_src = "`scale`"
+            name_src = "`" + builtin_name + "`"
         else:
             name_src = name
         received = []
@@ -71,7 +71,7 @@ def run_config(cfg):
 
         formula = f"y ~ 0 + fv_rec({name_src})"
     else:
-        name = "scale" if builtin else "probe_fn"
+        name = builtin_name if builtin else "probe_fn"
         name_src = name
         formula = f"y ~ 0 + {name}.sub.fn(x)" if form == "dotted" else f"y ~ 0 + {name}(x)"
     df = pd.DataFrame({"y": np.arange(N_ROWS, dtype=float), "x": np.arange(N_ROWS, dtype=float) + 1})
@@ -114,14 +114,19 @@ def run_config(cfg):
             warnings.simplefilter("ignore")
             dm = chain[3](chain, 3, locals_at, local_vals, dm_args)
     except Exception as e:  # pylint: disable=broad-except
-        if role == "callee" and form == "dotted" and isinstance(e, AttributeError) and "'Scale'" in str(e):
+        msg = str(e)
+        if role == "callee" and form == "dotted" and isinstance(e, AttributeError) and ("'Scale'" in msg or "'Treatment'" in msg):
             return "builtin", ""  # the first component resolved to the built-in class, which has no attribute 'sub'
-        return "raise", type(e).__name__ + ": " + str(e)[:80]
+        if role == "callee" and builtin_name == "Treatment" and "unrecognized type" in msg and "Treatment" in msg:
+            return "builtin", ""  # the built-in Treatment class was called: its instance is not a column
+        return "raise", type(e).__name__ + ": " + msg[:80]
     if role == "arg":
         if not received:
             return "other:not-called", ""
         v = received[0]
-        if v is TRANSFORMS.get("scale"):
+        from formulae.categorical import ENCODINGS
+
+        if v is TRANSFORMS.get("scale") or v is ENCODINGS.get("Treatment"):
             return "builtin", ""
         try:
             tag = int(np.asarray(v, dtype=float).ravel()[0])
@@ -147,8 +152,9 @@ def run_config(cfg):
 
 def _replay(case):
     cfg = case["cfg"]
+    bname = case.get("builtin_name", "scale")
     # a backquoted name that is not an identifier cannot live in locals (it still can in globals / extra / data)
-    got, err = run_config(cfg)
+    got, err = run_config(cfg, bname)
     want = case["winner"]
     if cfg["form"] == "backquoted" and "builtin" not in cfg["defined"] and "locals" in cfg["defined"]:
         # 'probe nm' cannot be a Python local: that scope is effectively undefined for this name
@@ -157,7 +163,7 @@ def _replay(case):
         want = next((s for s in order if s in d2), "raise")
     if got != want:
         return ({"clause": "wrong_scope_wins" if got != "raise" and want != "raise" else ("undefined_name_resolved" if want == "raise" else "defined_name_not_found"),
-                 "want": want, "got": got.split("@")[0], "role": cfg["role"], "form": cfg["form"]}, {"config": cfg, "want": want, "got": got, "error": err})
+                 "want": want, "got": got.split("@")[0], "role": cfg["role"], "form": cfg["form"]}, {"config": cfg, "builtin_name": bname, "want": want, "got": got, "error": err})
     return None
 
 
@@ -170,7 +176,7 @@ def main(tier, seed):
         "Non-trivial = configurations in which at least two scopes (or a decoy) define the name."
     )
     rep.assumptions = [
-        "the built-in scope is probed with the name 'scale'; other scopes with a fresh name",
+        "the built-in scope is probed with the names 'scale' (transforms) and 'Treatment' (encodings); other scopes with a fresh name",
         "a back-quoted name that is not an identifier cannot be a Python local variable; that scope is treated as not defining it",
     ]
     tmp = tlc.scratch_dir("fv_c11_")
@@ -186,6 +192,8 @@ def main(tier, seed):
         cases = tlc.read_export(out)
     finally:
         shutil.rmtree(tmp, ignore_errors=True)
+    # the built-in scope holds two registries (transforms and encodings): probe a name of each
+    cases = cases + [dict(c, builtin_name="Treatment") for c in cases if "builtin" in c["cfg"]["defined"]]
     results = common.pool_map(_replay, cases)
     for c, prob in zip(cases, results):
         rep.cov["evaluations"] += 1
